@@ -6,7 +6,7 @@
    Chain/RestartCuts.v.  Which states are durable ([dur]) is an arbitrary input: the
    theorems hold for every commit policy and every behaviour of the storage engines
    (C20 / C24) that keeps the key-value batches atomic. *)
-From GV Require Import Lib.Tactics Chain.Tree Chain.Canonical Chain.CanonicalProofs Chain.CanonicalInv Chain.CanonicalTop Chain.CanonicalWitness Chain.Restart Chain.RestartProofs Chain.RestartCuts.
+From GV Require Import Lib.Tactics Chain.Tree Chain.Canonical Chain.CanonicalProofs Chain.CanonicalInv Chain.CanonicalTop Chain.CanonicalWitness Chain.Restart Chain.RestartProofs Chain.RestartCuts Chain.RestartPath Chain.RestartPathProofs.
 Local Open Scope N_scope.
 
 (* After ANY database image and ANY set of durable states: if NewBlockChain comes up, the
@@ -112,6 +112,31 @@ Theorem C39_reorg_crash_window_refuted :
      hd_header (kv p) = 3 /\ num_of T 3 = 3 /\ canon (kv p) 3 = None).
 Proof. exact legacy_window_refuted. Qed.
 Print Assumptions C39_reorg_crash_window_refuted.
+
+(* Multi-session histories of the path database (clean shutdowns and hard crashes
+   alternating, chains beyond the 128 diff layers): for EVERY history of executed blocks,
+   explicit commits, clean shutdowns (journal written) and crash+reopen — including a
+   reopen that accepts the journal of an EARLIER clean shutdown because the persistent
+   state has not moved since — the number of state histories equals the disk layer id and
+   the persistent state id is at or below it.  (This is what lets the node go on importing
+   after the restart: diskLayer.commit appends history id disk+1.)  The counters are tied
+   to triedb/pathdb through a real BlockChain by the multi-session correspondence. *)
+Theorem C39_history_head_is_disk_layer :
+  forall (ops : list pop),
+    let d := fold_left pstep ops pd0 in pd_fh d = pd_did d /\ pd_pid d <= pd_did d.
+Proof. exact history_aligned. Qed.
+Print Assumptions C39_history_head_is_disk_layer.
+
+(* ... and it rests on repairHistory's truncation also when the layers come from a journal:
+   140 blocks, clean Stop, restart, 5 more blocks, crash, restart — without the truncation
+   the disk layer is back at id 12 under 17 histories (re-import impossible); with it, 12/12. *)
+Theorem C39_stale_journal_needs_truncation :
+  let d := pd_reopen_gen true (pd_grow 145 (pd_reopen (pd_stop (pd_grow 140 pd0)))) in
+  pd_did d = 12 /\ pd_fh d = 17 /\
+  let d' := pd_reopen (pd_grow 145 (pd_reopen (pd_stop (pd_grow 140 pd0)))) in
+  pd_did d' = 12 /\ pd_fh d' = 12.
+Proof. exact reopen_without_truncation_breaks. Qed.
+Print Assumptions C39_stale_journal_needs_truncation.
 
 (* non-vacuity: freeze, crash losing the head state, repair below the freezer boundary
    (ancient store truncated), re-import back to the original head; and the repaired reorg
